@@ -1,3 +1,10 @@
 import LhasaV.Props.C04
 open LhasaV.Props.C04
 #print axioms init_history_is_initOrder
+#print axioms tables_match_source
+#print axioms history_refines_mtf
+#print axioms history_find
+#print axioms pm2_schedule
+#print axioms pm1_trees_ok
+#print axioms pm1_decode_serialise
+#print axioms pm2_decode_serialise
